@@ -42,6 +42,11 @@ def run(tier, seed, replay=None):
             se = universe.STYLE_EDITIONS[(i + w) % 3]
             pts.append((f"{name}@w={w},se={se},v0", name, text,
                         {"max_width": w, "style_edition": se}))
+    for i, (name, text, o) in enumerate(universe.kindmix_sources()):
+        se = universe.STYLE_EDITIONS[i % 3]
+        if tier == "thorough" or i % 3 == seed % 3 or len(name) <= len("gen/implmix_XXX"):
+            pts.append((f"{name}@w=100,se={se},mix", name, text,
+                        dict(o, max_width=100, style_edition=se)))
     jobs1 = []
     for k, (pid, name, text, opts) in enumerate(pts):
         jobs1.append({"id": len(jobs1), "src": text, "opts": opts, "want": ["out"], "_pid": pid})
